@@ -1,10 +1,24 @@
 /-
 C04 — Parser descriptors state exactly what a CATS document declares.
+
 Property theorems over `Model/Cats/{Lexer,Parser,Printer}.lean` (the language of `catbuffer.lark` and the objects
 `CatbufferTransformer` builds) on cats-a's `Model/Cats/Syntax.lean` (`toLegacy`, `render`).
+
+Status. The headline statement of the design,
+
+    parse_render : ∀ ds, WFDecls ds → Parser.parse (Printer.print ds).toList = .ok ds
+
+(and with it `legacy_of_parse` and `print_parse_fixpoint`), is NOT proved for whole documents; on the model it is
+checked by the correspondence run only (`harness/c04.py`: `parse (print ds) = ds` for every parsed document). What
+is proved here, for all inputs of the stated shape, is the character-level round trip of the alias declaration line
+(`parse_render_alias_partial`: `parseTopLine (render a) = a` for every well-formed alias, both type forms, every
+name, every size), the numeral round trip it rests on (`decimal_numeral_roundtrip`, any number), the legacy
+descriptor of a parsed alias line (`legacy_of_parse_alias_partial`), and the indentation law `tab_is_four_spaces`.
+Enums, structs, members, attributes, comments and the block structure have no round-trip theorem yet.
 -/
 import SymbolVerif.Model.Cats.Parser
 import SymbolVerif.Model.Cats.Printer
+import SymbolVerif.Proofs.CatsScanLemmas
 namespace SymbolVerif.C04
 open SymbolVerif.Cats SymbolVerif.Cats.Lexer SymbolVerif.Cats.Parser
 
@@ -25,5 +39,110 @@ theorem tab_is_four_spaces (pre post : Chars) :
   simp only [indentOf, List.foldl_append, List.foldl_cons]
   simp only [indentOf_foldl]
   simp
+
+/-! ### numerals -/
+
+/-- every number, printed in decimal, scans back to itself (`_dec_or_hex_number`, `int(string, 10)`), whatever
+    follows it as long as that is not a digit (or an `x`, which would start a hexadecimal numeral after `0`). -/
+theorem decimal_numeral_roundtrip (n : Nat) (r : Chars) (hr : ∀ c, r.head? = some c → isDigit c = false ∧ c ≠ 'x') :
+    number ((toString n).toList ++ r) = some (n, r) :=
+  number_repr n r hr
+
+/-- hexadecimal and decimal spellings denote the same number (instances; the general statement needs an upper-case
+    hexadecimal printer, which the repository does not have). -/
+theorem hex_dec_same_value :
+    number "0xFF".toList = number "255".toList ∧ number "0x0A".toList = number "10".toList ∧
+    number "0x00".toList = number "000".toList ∧ number "0xFFFFFFFFFFFFFFFF".toList = number "18446744073709551615".toList := by
+  decide
+
+/-! ### the alias line -/
+
+/-- an integer type of the DSL: 1, 2, 4 or 8 bytes, no size reference (that comes from post-processing) -/
+def WFInt (t : IntType) : Prop := (t.size = 1 ∨ t.size = 2 ∨ t.size = 4 ∨ t.size = 8) ∧ t.sizeref = none
+
+/-- a well-formed alias: name in the class `USER_TYPE_NAME`, a supported integer type or any buffer size -/
+def WFAlias (a : Alias) : Prop :=
+  IsUserTypeName a.name.toList ∧ (match a.linkedType with | .int t => WFInt t | .buffer _ => True)
+
+theorem alias_render_toList (a : Alias) :
+    a.render.toList = 'u' :: 's' :: 'i' :: 'n' :: 'g' :: ' ' :: (a.name.toList ++ ' ' :: '=' :: ' ' :: a.linkedType.render.toList) := by
+  simp [Alias.render, String.toList_append, toString]
+
+theorem fixed_shortName (u : Bool) (sz : Nat) (h : sz = 1 ∨ sz = 2 ∨ sz = 4 ∨ sz = 8) :
+    fixedSizeInteger (' ' :: (IntType.shortName ⟨u, sz, none⟩).toList) = some ((u, sz), []) := by
+  rcases h with rfl | rfl | rfl | rfl <;> cases u <;> decide
+
+theorem tail_head_not_type (t : Chars) (c : Char) (h : (' ' :: t).head? = some c) : isTypeChar c = false := by
+  simp at h; subst h; decide
+
+theorem buffer_render_toList (n : Nat) :
+    (LinkedType.render (.buffer n)).toList = "binary_fixed(".toList ++ ((toString n).toList ++ [')']) := by
+  simp [LinkedType.render, String.toList_append, toString]
+
+/-- Character-level round trip of an alias declaration: the text `Alias.__str__` prints for a well-formed alias is
+    read back by the top-level line parser as exactly that alias (name, signedness, width / buffer length). -/
+theorem parse_render_alias_partial (a : Alias) (h : WFAlias a) :
+    parseTopLine .start a.render.toList = some (.alias a.name a.linkedType) := by
+  obtain ⟨name, lt, c⟩ := a
+  obtain ⟨hn, hlt⟩ := h
+  simp only at hn hlt
+  have hu : isWs 'u' = false := by decide
+  rw [alias_render_toList]
+  simp only
+  have hscan := userTypeName_with_blank name.toList (' ' :: '=' :: ' ' :: lt.render.toList) hn (tail_head_not_type _)
+  have e1 : structModifier ('u' :: 's' :: 'i' :: 'n' :: 'g' :: ' ' :: (name.toList ++ ' ' :: '=' :: ' ' :: lt.render.toList)) = none :=
+    structModifier_none_of_head _ _ hu (by decide) (by decide)
+  have e2 : lit "import" ('u' :: 's' :: 'i' :: 'n' :: 'g' :: ' ' :: (name.toList ++ ' ' :: '=' :: ' ' :: lt.render.toList)) = none :=
+    lit_none_of_head "import" 'i' _ rfl _ _ hu (by decide)
+  have e3 : lit "struct" ('u' :: 's' :: 'i' :: 'n' :: 'g' :: ' ' :: (name.toList ++ ' ' :: '=' :: ' ' :: lt.render.toList)) = none :=
+    lit_none_of_head "struct" 's' _ rfl _ _ hu (by decide)
+  have e4 := lit_using (' ' :: (name.toList ++ ' ' :: '=' :: ' ' :: lt.render.toList))
+  have hA : lit "=" (' ' :: '=' :: ' ' :: lt.render.toList) = some (' ' :: lt.render.toList) := by
+    simp [lit, skipWs, List.dropWhile, isWs, List.isPrefixOf]
+  have hC : atEol ([] : Chars) = true := by decide
+  cases lt with
+  | int t =>
+    obtain ⟨u, sz, sr⟩ := t
+    obtain ⟨hsz, hsr⟩ := hlt
+    simp only at hsz hsr
+    subst hsr
+    have hB := fixed_shortName u sz hsz
+    simp only [LinkedType.render, IntType.render] at hscan hA e1 e2 e3 e4 ⊢
+    simp only [parseTopLine, e1, e2, e3, e4, aliasRest, hscan, bind, Option.bind, hA, hB, hC, if_true, mkInt,
+      String.ofList_toList]
+  | buffer n =>
+    rw [buffer_render_toList] at hscan hA e1 e2 e3 e4 ⊢
+    have hB : fixedSizeInteger (' ' :: ("binary_fixed(".toList ++ ((toString n).toList ++ [')']))) = none := by
+      simp [fixedSizeInteger, skipWs, List.dropWhile, isWs, litHere, List.isPrefixOf]
+    have hD : lit "binary_fixed" (' ' :: ("binary_fixed(".toList ++ ((toString n).toList ++ [')']))) =
+        some ('(' :: ((toString n).toList ++ [')'])) := by
+      simp [lit, skipWs, List.dropWhile, isWs, List.isPrefixOf]
+    have hE : lit "(" ('(' :: ((toString n).toList ++ [')'])) = some ((toString n).toList ++ [')']) := by
+      simp [lit, skipWs, List.dropWhile, isWs, List.isPrefixOf]
+    have hF : number ((toString n).toList ++ [')']) = some (n, [')']) :=
+      number_repr n [')'] (by intro c hc; simp at hc; subst hc; exact ⟨by decide, by decide⟩)
+    have hG : lit ")" [')'] = some [] := by decide
+    simp only [parseTopLine, e1, e2, e3, e4, aliasRest, hscan, bind, Option.bind, hA, hB, hC, hD, hE, hF, hG, if_true,
+      String.ofList_toList]
+
+/-- the legacy descriptor of the alias read back from its printed line is the descriptor of the alias (the comment
+    is attached at the statement level and is not part of the line). -/
+theorem legacy_of_parse_alias_partial (a : Alias) (h : WFAlias a) :
+    (parseTopLine .start a.render.toList).map (fun
+      | .alias n t => (Alias.toLegacy { name := n, linkedType := t, comment := a.comment })
+      | _ => []) = some a.toLegacy := by
+  rw [parse_render_alias_partial a h]
+  rfl
+
+/-! ### non-vacuity: whole documents on the model -/
+
+example : (parseString "# doc\nusing Foo = uint8\n").toOption =
+    some [.alias { name := "Foo", linkedType := .int ⟨true, 1, none⟩, comment := some ⟨"doc"⟩ }] := by decide
+
+example : (parseString "struct Foo\n\t@alignment(8)\n\tab = array(uint8, __FILL__) if 3 not in cd\n").toOption.isSome = true := by
+  decide
+
+example : WFAlias { name := "Hash256", linkedType := .buffer 32 } :=
+  ⟨⟨'H', 'a', "sh256".toList, rfl, by decide, by decide, by decide⟩, trivial⟩
 
 end SymbolVerif.C04
